@@ -107,6 +107,9 @@ type Rec struct {
 	// (the convention of e.g. MySQL) instead of SQLite's last row id.
 	LastInsertFirst bool
 
+	// Decide, if set, may inject an error for any event (consulted before the fault plan, outside r.mu)
+	Decide func(e *Event) error
+
 	// parking: if set, called before the inner call for every event (outside r.mu)
 	Park func(e *Event)
 }
@@ -185,10 +188,22 @@ func (r *Rec) pre(e *Event) (int, error) {
 	if r.Park != nil {
 		r.Park(e)
 	}
+	var decided error
+	if r.Decide != nil {
+		decided = r.Decide(e)
+	}
 	r.mu.Lock()
 	defer r.mu.Unlock()
 	r.seq++
 	e.Seq = r.seq
+	if decided != nil {
+		e.Res = "fault"
+		e.Err = decided.Error()
+		if r.record {
+			r.events = append(r.events, *e)
+		}
+		return -1, decided
+	}
 	if strings.Contains(e.SQL, ProbeMarker) {
 		if e.K == "prepare" || e.K == "stmt_close" {
 			e.K = "probe_aux"
